@@ -640,6 +640,9 @@ class Interp:
         # an inlined callee runs under the conditions of its call site (event guards are absolute)
         base = self.stack[-1].guard if self.stack else ()
         st.guard = base
+        track = nf.DIV_TRACK and not self.stack and nf.DIV_LOG is None
+        if track:
+            nf.DIV_LOG = []
         self.stack.append(st)
         try:
             rets = []
@@ -650,9 +653,14 @@ class Interp:
             self._returns.pop()
         finally:
             self.stack.pop()
+            if track:
+                divs, nf.DIV_LOG = nf.DIV_LOG, None
         if not rets:
             raise Diverge()
-        return self.merge_values([(g, v) for g, v, _ in rets], base_len=len(base)), rets
+        out = self.merge_values([(g, v) for g, v, _ in rets], base_len=len(base))
+        if track:
+            nf.DIV_REPORTS.append((body['path'], len(divs), removable_divisions(divs, out)))
+        return out, rets
 
     def cfg(self, body):
         c = self.cfgs.get(body['path'])
@@ -1293,6 +1301,11 @@ class Interp:
         if k == 'rawptr':
             return Ref(self.lvalue(st, rv['place']), True)
         if k == 'binop':
+            if nf.DIV_LOG is not None and rv['op'].startswith('Div') and rv.get('lty') not in SCALAR_INT:
+                try:
+                    nf.log_div(as_rf(self.operand(st, rv['r'])), st.guard)
+                except TypeError:
+                    pass
             return self.binop(rv['op'], self.operand(st, rv['l']), self.operand(st, rv['r']), rv.get('lty'))
         if k == 'unop':
             x = self.operand(st, rv['x'])
@@ -1804,3 +1817,81 @@ def discr_atom(v):
     if isinstance(v, Sym):
         return nf.app_atom('discr', v.atom)
     raise AnalysisIncomplete('discriminant atom of non-symbolic %r' % (v,))
+
+
+def rf_leaves(v, acc=None, depth=0):
+    """All scalar normal forms inside a value (struct fields, both sides of conditionals)."""
+    if acc is None:
+        acc = []
+    if depth > 12:
+        return acc
+    if isinstance(v, Ref):
+        try:
+            v = read_lv(v.lv)
+        except Exception:
+            return acc
+    if isinstance(v, RF):
+        parts = ite_parts(v)
+        if parts is not None:
+            rf_leaves(parts[1], acc, depth + 1)
+            rf_leaves(parts[2], acc, depth + 1)
+            acc.append(v)          # (kept for its conditions)
+        else:
+            acc.append(v)
+    elif isinstance(v, St):
+        for f in v.fields.values():
+            rf_leaves(f, acc, depth + 1)
+    elif isinstance(v, Ite):
+        rf_leaves(v.a, acc, depth + 1)
+        rf_leaves(v.b, acc, depth + 1)
+    return acc
+
+
+def _cmp_atoms(l):
+    """Atoms compared directly (not inside an uninterpreted call) by a comparison leaf."""
+    out = set()
+    if isinstance(l, B) and l.op == 'cmp':
+        for x in l.args[1:]:
+            if isinstance(x, RF):
+                out |= set(x.atoms())
+    return out
+
+
+def removable_divisions(divs, result):
+    """Divisions whose divisor leaves no trace in any denominator of the result: the normal form cancelled it, so the value LOOKS defined where the
+    divisor vanishes while the code computes 0/0 or x/0 there (`(d / r) * r`).  A divisor of which at least one atom survives in a denominator of
+    the result (the |x - c| of a normalisation, the determinant of a linear solve) is the construction's own singularity and is not listed.
+    Conditions inside the result (gated values) count as part of it: a division guarded by a test of its divisor is the code's own case split."""
+    den_atoms = set()
+    leaves = rf_leaves(result)
+    for r in leaves:
+        den_atoms |= set(atoms_deep(RF(dict(r.den))))
+        # conditions of gated values: atoms tested there are accounted for (the code distinguishes the case)
+        for a in atoms_deep(r).values():
+            if a.kind == 'ite':
+                pass
+    cond_atoms = set()
+    try:
+        from . import dtab
+        for r in leaves:
+            for l in dtab.b_leaves(r).values():
+                cond_atoms |= _cmp_atoms(l)
+    except Exception:
+        pass
+    out = []
+    for b, g in divs:
+        num = RF(dict(b.num))
+        if num.is_const():
+            continue
+        na = set(atoms_deep(num))
+        ga = set()
+        for q in g:
+            try:
+                from . import dtab
+                for l in dtab.b_leaves(q).values():
+                    ga |= _cmp_atoms(l)
+            except Exception:
+                pass
+        if not (na & den_atoms) and not (na & cond_atoms) and not (na & ga):
+            out.append(repr(b)[:80])
+    return out
